@@ -132,6 +132,20 @@ pub fn check_vec(data: &[u8], ops: &[Op], auto_too: bool) -> R {
     let mut strip = StripStream::new(Vec::new());
     let r_strip = drive(&mut strip, data, ops);
     let strip_bytes = strip.into_inner();
+    // the method a piece of data arrives through does not matter: the bytes each call consumed, sent with write_all
+    // only, give the same output
+    {
+        let mut only_write_all = StripStream::new(Vec::new());
+        for (op, r) in ops.iter().zip(&r_strip) {
+            let piece: &[u8] = match (op, r) {
+                (Op::Write(a, _), Res::N(n)) | (Op::WriteVectored(a, _, _), Res::N(n)) => &data[*a..*a + *n],
+                (Op::WriteAll(a, b), Res::Unit) | (Op::WriteFmt(a, b), Res::Unit) => &data[*a..*b],
+                _ => &[],
+            };
+            let _ = only_write_all.write_all(piece);
+        }
+        same_bytes("strip-method-independence", "the consumed bytes re-sent with write_all only", &only_write_all.into_inner(), &strip_bytes)?;
+    }
     // stripping modes
     let mut never: Vec<(&str, AutoStream<Vec<u8>>)> = vec![("new(Never)", AutoStream::new(Vec::new(), ColorChoice::Never)), ("never()", AutoStream::never(Vec::new()))];
     if auto_too {
@@ -401,7 +415,21 @@ fn generate(seed: u64, i: u64, maxlen: usize) -> Gen {
         1 => gen::gen_stream(&mut rng, maxlen, false),
         _ => gen::gen_sgr_text(&mut rng, gen::SgrOpts::default(), 30, &[]),
     };
-    let ops = gen_ops(&mut rng, &data);
+    let mut ops = gen_ops(&mut rng, &data);
+    let mut data = data;
+    if i % 7 == 3 {
+        // a byte write that ends inside a multi-byte character which is never completed, followed by a formatted write
+        let tail = *rng.pick(&[": not found\n", "\x1b[1mbold\x1b[0m \u{e9}\n", "x"]);
+        let lead = *rng.pick(&[&b"\xc3"[..], b"\xe2\x82", b"\xf0\x9f", b"\xe2"]);
+        let a = data.len();
+        data.extend_from_slice(b"caf");
+        data.extend_from_slice(lead);
+        let m = data.len();
+        data.extend_from_slice(tail.as_bytes());
+        ops.push(if rng.chance(1, 2) { Op::WriteAll(a, m) } else { Op::Write(a, m) });
+        ops.push(Op::WriteFmt(m, data.len()));
+        ops.push(Op::WriteAll(a, a + 3));
+    }
     let script: Vec<Step> = (0..rng.below(20))
         .map(|_| match rng.below(10) {
             0 => Step::Accept(0),
